@@ -27,6 +27,13 @@ impl NotifyS {
         ensures final(env).clock@ > old(env).clock@, final(env).incs@ >= old(env).incs@, final(env).notifs@ == old(env).notifs@ + 1,
             final(env).last_load_clock == old(env).last_load_clock, final(env).last_load_value == old(env).last_load_value, final(env).waits == old(env).waits,
     { unimplemented!() }
+    // Notify::notify_one: wakes (or leaves a permit for) ONE waiter only; with several config watchers sharing the Notify it is not a wake-up of
+    // every enabled Notified, so it does not count as one here (not used today; present so that such a change is decided)
+    #[verifier::external_body]
+    pub fn notify_one(&self, env: &mut CEnv)
+        ensures final(env).clock@ > old(env).clock@, final(env).incs@ >= old(env).incs@, final(env).notifs@ == old(env).notifs@,
+            final(env).last_load_clock == old(env).last_load_clock, final(env).last_load_value == old(env).last_load_value, final(env).waits == old(env).waits,
+    { unimplemented!() }
     pub fn clone(&self) -> NotifyS { NotifyS }
 }
 impl CountS {
